@@ -1,6 +1,6 @@
 (* C03 - Exporters are driven one call at a time and within the configured batch bounds (batch processors).
    Property theorems only; proofs are in Batch/Proofs*.v and Batch/Theorems.v. *)
-From V Require Import Batch.Model Batch.ProofsA Batch.ProofsB Batch.Theorems Batch.Simple Batch.SimpleProofs Batch.Periodic Batch.PeriodicProofs.
+From V Require Import Batch.Model Batch.Glue Batch.Spec Batch.ProofsA Batch.ProofsB Batch.Theorems Batch.TraceSpec Batch.Simple Batch.SimpleProofs Batch.Periodic Batch.PeriodicProofs.
 From Coq Require Import List Arith.
 Import ListNotations.
 
@@ -19,6 +19,11 @@ Theorem c03_export_never_overlaps : forall q b s t e s', reachable q b s -> acce
   end.
 Proof. exact export_never_overlaps. Qed.
 Print Assumptions c03_export_never_overlaps.
+
+(* every trace the acceptor accepts passes the history checker that ./check runs on the implementation's traces *)
+Theorem c03_accepted_trace_meets_spec : forall q b tr s, run (init q b) tr = Some s -> spec_c03 b (pevs tr) = [].
+Proof. exact accepted_trace_meets_spec_c03. Qed.
+Print Assumptions c03_accepted_trace_meets_spec.
 
 (* simple processors called from any number of threads (Batch/Simple.v) *)
 Theorem c03_simple_lock_is_mutex : forall s t1 t2, sreachable s ->
